@@ -356,7 +356,7 @@ def _merge_shape(fields):
     """
     rmin, rmax, cmin, cmax = boundary(fields)
     # faster than np.any([rmin, rmax, cmin, cmax])
-    if rmin == 0 and rmax == 0 and cmin == 0 and cmax == 0:
+    if rmin == 0 and rmax == 0 and cmin == 0 and cmax == 0 and all(f.shape == () for f in fields):
         return ()
     else:
         return rmax - rmin + 1, cmax - cmin + 1
@@ -370,7 +370,7 @@ def _merge_slices(fields):
     out = []
     # faster than np.any([rmin, rmax, cmin, cmax])
     if rmin == 0 and rmax == 0 and cmin == 0 and cmax == 0:
-        out.append(Ellipsis)
+        out.extend([Ellipsis] * len(fields))
     else:
         for field in fields:
             frmin, frmax, fcmin, fcmax = field.extent
